@@ -821,3 +821,90 @@ def enum_regions(body, lid, enum_prefix):
     if sp:
         return {found["v"]: sp[0], "other": sp[1]}
     return None
+
+
+def nonzero_at(ix, node, lid, place=None):
+    """the unsigned local `lid` is known to be >= 1 where node executes: an enclosing / earlier-diverging comparison with 0 or 1,
+    or node sits in a catch-all arm of `match lid` after an arm for the literal 0; no assignment to lid in between is checked by the caller's
+    use (the decrement is the node itself)"""
+    def same(x):
+        if lid is not None:
+            return is_local(x, lid)
+        fa, fb = field_path(x), field_path(place)
+        return fa is not None and fb is not None and fa[1] is not None and canon(fa[1]) == canon(fb[1]) and fa[2] == fb[2]
+
+    def cmp_fact(c, pol):
+        c = resolve(c)
+        if c.get("k") != "binary" or c["op"] not in ("==", "!=", ">", ">=", "<", "<="):
+            return False
+        l, r, op = c["l"], c["r"], c["op"]
+        if peel(l).get("k") == "lit":
+            l, r = r, l
+            op = {"<": ">", ">": "<", "<=": ">=", ">=": "<=", "==": "==", "!=": "!="}[op]
+        if not (same(l) and peel(r).get("k") == "lit" and isinstance(peel(r).get("v"), int)):
+            return False
+        v = peel(r)["v"]
+        if pol:
+            return (op, v) in ((">", 0), (">=", 1), ("!=", 0)) or (op in (">", ">=") and v >= 1) or (op == "==" and v >= 1)
+        return (op, v) in (("==", 0), ("<", 1), ("<=", 0))
+    for c, pol in path_conditions(ix, node):
+        if cmp_fact(c, pol):
+            return True
+    for a in ix.ancestors(node):
+        if a.get("k") == "match" and same(a["scrut"]):
+            zero_seen = False
+            for arm in a["arms"]:
+                alts = pat_alts(arm["pat"])
+                if contains(arm["body"], node):
+                    if zero_seen and all(x.get("k") in ("pwild", "pbind") or (x.get("k") == "plit" and x.get("v", 0) >= 1) for x in alts) and "guard" not in arm:
+                        return True
+                    if all(x.get("k") == "plit" and isinstance(x.get("v"), int) and x["v"] >= 1 for x in alts):
+                        return True
+                    break
+                if any(x.get("k") == "plit" and x.get("v") == 0 for x in alts) and "guard" not in arm:
+                    zero_seen = True
+    return False
+
+
+def literal_dispatch(body, lid):
+    """{literal value: result expression} of a dispatch on the local `lid` against literals: arms of `match lid { b"x" => r, .. }`
+    and early exits `if lid == b"x" { return r }` / `if lid == b"x" { r } else ..`"""
+    out = {}
+    for n in walk(body):
+        if n.get("k") == "match" and is_local(n["scrut"], lid):
+            for arm in n["arms"]:
+                if "guard" in arm:
+                    continue
+                for alt in pat_alts(arm["pat"]):
+                    while alt.get("k") in ("pref", "pderef"):
+                        alt = alt["pat"]
+                    if alt.get("k") == "plit" and "v" in alt:
+                        out.setdefault(alt["v"], arm["body"])
+        elif n.get("k") == "if":
+            c = resolve(n["cond"])
+            if c.get("k") == "binary" and c["op"] == "==":
+                for a, b in ((c["l"], c["r"]), (c["r"], c["l"])):
+                    b = peel(b)
+                    if is_local(a, lid) and b.get("k") == "lit" and "v" in b:
+                        out.setdefault(b["v"], n["then"])
+    return out
+
+
+def result_value(e):
+    """the value a branch produces: tail of its block or the operand of its `return`, through Ok(..)"""
+    e = tail_value(e)
+    for _ in range(6):
+        k = e.get("k")
+        if k in ("blockexpr", "block"):
+            b = e["b"] if k == "blockexpr" else e
+            last = b.get("tail") or (b["stmts"][-1] if b["stmts"] else None)
+            if last is None:
+                return e
+            e = tail_value(last["e"] if last.get("k") == "semi" else last)
+        elif k in ("return", "ireturn") and "e" in e:
+            e = tail_value(e["e"])
+        elif k == "ctor" and callee(e).endswith("Result::Ok") and len(e["args"]) == 1:
+            e = tail_value(e["args"][0])
+        else:
+            break
+    return e
